@@ -667,7 +667,7 @@ func c07Flags(fs *Facts, f *File) {
 			if !ok || fd.Body == nil || !strings.HasPrefix(fd.Name.Name, "SetContent") {
 				continue
 			}
-			if f.Contains(fd.Body, "contentTypeChanged") {
+			if f.Contains(fd.Body, "contentTypeChanged =") || f.Contains(fd.Body, "&t.contentTypeChanged") {
 				tcd = Unknown
 			}
 			for _, c := range f.CallsSuffix(fd.Body, "") {
